@@ -1182,7 +1182,7 @@ def unwrap(p, *args, **kwargs):
 
 
 @implements(np.interp)
-def interp(x, xp, fp, *args, **kwargs):
+def interp(x, xp, fp, left=None, right=None, period=None):
     _validate_units_consistency((x, xp))
 
     # return array type should match fp's
@@ -1190,8 +1190,23 @@ def interp(x, xp, fp, *args, **kwargs):
     # This avoid leaking a dimensionless unyt_array if reference data
     # is a pure np.ndarray
     ret_units = getattr(fp, "units", 1)
+    # fill values are results, the period is an abscissa: read them in those units
+    if hasattr(fp, "units"):
+        if isinstance(left, unyt_array):
+            left = left.to_value(fp.units)
+        if isinstance(right, unyt_array):
+            right = right.to_value(fp.units)
+    if hasattr(xp, "units") and isinstance(period, unyt_array):
+        period = period.to_value(xp.units)
     return (
-        np.interp(np.asarray(x), np.asarray(xp), np.asarray(fp), *args, **kwargs)
+        np.interp(
+            np.asarray(x),
+            np.asarray(xp),
+            np.asarray(fp),
+            left=left,
+            right=right,
+            period=period,
+        )
         * ret_units
     )
 
